@@ -87,7 +87,15 @@ def _print_Piecewise(
         else:
             return printer._print(cond)
 
-    expr = sympy.simplify(expr)
+    try:
+        simplified = sympy.simplify(expr)
+    except Exception:
+        # simplify can choke on unevaluated sub-expressions; the original
+        # piecewise is equivalent, only less tidy. The printers also need the
+        # last condition to be literally True, which simplify may rewrite.
+        simplified = expr
+    if isinstance(simplified, sympy.Piecewise) and simplified.args[-1].cond == True:  # noqa: E712
+        expr = simplified
 
     exprs = [printer._print(arg.expr) for arg in expr.args]
     conds = [print_cond(arg.cond) for arg in expr.args]
